@@ -1,10 +1,10 @@
 SPECIFICATION Spec
 CONSTANTS
-  Dims = {4}
+  Dims = {1, 2}
   MaxBins = 3
   BinChoices = {1, 2, 3}
-  Scales = {0}
-  Bounds <- DBounds
+  Scales <- ScalesS
+  Bounds <- SBounds
 INVARIANT Exact
 INVARIANT Representable
 INVARIANT CountIsProduct
